@@ -1,4 +1,5 @@
 import Lace.Props.C18
+import Lace.Props.C18Obj
 #print axioms Lace.C18.flag_dichotomy
 #print axioms Lace.C18.flag_off_rejects
 #print axioms Lace.C18.flag_off_diag_inside
@@ -21,3 +22,7 @@ import Lace.Props.C18
 #print axioms Lace.C18.flag_position_irrelevant
 #print axioms Lace.C02.execute_eq_isa
 #print axioms Lace.C02.stack_off_stops
+#print axioms Lace.C18.obj_flag_irrelevant
+#print axioms Lace.C18.obj_flag_off_opD_exit1
+#print axioms Lace.C18.obj_flag_position_irrelevant
+#print axioms Lace.C18.obj_bad_option_exit2
